@@ -3,6 +3,9 @@ import GE.Model.Path
 import GE.Model.VarName
 import GE.Model.JsLit
 import GE.Model.ExprGen
+import GE.Model.ExprSExp
+import GE.Model.SubExpr
+import GE.Model.TagGen
 /-!
 Model driver: one request per line (`op TAB field…`), one answer line per request.
 Unknown ops answer `bad-op` (never defaulted).
@@ -30,6 +33,15 @@ def withExpr (sx : String) (k : GE.Expr → String) : String :=
     | none => "bad-ast"
   | none => "bad-sexp"
 
+def parseCond (f : String) : Option GE.TagGen.CondItem :=
+  if f == "else" then some .els
+  else if f.startsWith "s:" then some (.static (f.drop 2).toString)
+  else if f.startsWith "e:" then
+    match parseSExp (f.drop 2).toString with
+    | some se => (GE.exprOfSExp se).map .dyn
+    | none => none
+  else none
+
 def step (fs : List String) : String :=
   match fs with
   | ["path_normalize", p] => esc (str (GE.Path.normalize (chars p)))
@@ -55,6 +67,21 @@ def step (fs : List String) : String :=
         else some (str (GE.JsLit.genLitStr (chars pre ++ [Char.ofNat v] ++ chars suf)))
       esc (String.intercalate (String.singleton (Char.ofNat 31)) outs)
     | _, _ => "bad-op"
+  | ["subexprs", sx] =>
+    withExpr sx fun e =>
+      esc (String.intercalate (String.singleton (Char.ofNat 31)) ((GE.SubExpr.subExprs e).map GE.Expr.toSExp))
+  | ["convert", sx, names] =>
+    withExpr sx fun e =>
+      esc (GE.SubExpr.convertScopes ((names.splitOn ",").filter (· ≠ "")) e).toSExp
+  | "if_selector" :: scopes :: conds =>
+    match conds.mapM parseCond with
+    | none => "bad-cond"
+    | some cs =>
+      let sc := parseScopes scopes
+      let items := (GE.TagGen.prepareAll sc cs 0).1
+      esc (GE.Gen.spellStmts (GE.TagGen.selStmts items)) ++ "\t" ++ esc (GE.Gen.spellAll (GE.TagGen.selToks items 0))
+  | ["dash_camel", s] => esc (str (GE.TagGen.dashToCamel (chars s)))
+  | ["data_hyphen", s] => esc (str (GE.TagGen.dataHyphenName (chars s)))
   | ["expr_gen", sx, scopes] =>
     withExpr sx fun e =>
       let sc := parseScopes scopes
